@@ -364,6 +364,8 @@ func (m *urlModule) createURLPrototype() *goja.Object {
 			if _, err := url.ParseRequestURI(s + "://" + u.url.Host); err == nil {
 				u.url.Scheme = s
 				dropDefaultPort(u.url)
+				// a host that was stored under "file:" has not been lower-cased or converted to punycode yet
+				m.fixURL(u.url)
 			}
 		}
 	})
